@@ -21,6 +21,10 @@ pub struct Ntv2Grid {
 
 impl Ntv2Grid {
     pub fn new(buf: &[u8]) -> Result<Self, Error> {
+        // The overview header is read at fixed offsets, so it must be complete
+        if buf.len() < HEADER_SIZE {
+            return Err(Error::Invalid("NTv2 file too short".to_string()));
+        }
         let parser = NTv2Parser::new(buf.into());
 
         // NUM_OREC is the NTv2 signature, i.e. "magic bytes"
@@ -69,7 +73,8 @@ impl Ntv2Grid {
     fn find_grid(&self, coord: &Coor4D, margin: f64) -> Option<(String, &BaseGrid)> {
         // Start with the base grids whose parent id is `NONE`
         let mut current_grid_id: String = "NONE".to_string();
-        let mut queue = self.lookup_table.get(&current_grid_id).unwrap().clone();
+        // A file without any root grid (parent `NONE`) contains no point at all
+        let mut queue = self.lookup_table.get(&current_grid_id)?.clone();
 
         while let Some(grid_id) = queue.pop() {
             // Unwrapping is safe because a panic means we didn't
